@@ -48,7 +48,18 @@ def case_scenario(draw: Any) -> dict[str, Any]:
     trials = []
     for i in range(n):
         kind = draw(st.sampled_from(["stale", "stale", "stale", "fresh", "nobeat", "complete", "failed"]))
-        trials.append({"kind": kind, "generation": draw(st.integers(0, 2)) if kind == "stale" else 0, "x": draw(st.integers(0, 9)) / 10, "iv": draw(st.booleans()), "attr": draw(st.integers(0, 3))})
+        trials.append(
+            {
+                "kind": kind,
+                "generation": draw(st.integers(0, 2)) if kind == "stale" else 0,
+                "x": draw(st.integers(0, 9)) / 10,
+                "iv": draw(st.booleans()),
+                "attr": draw(st.integers(0, 3)),
+                # age of a stale heartbeat in seconds (grace period: 3600): just past it, hours,
+                # whole days plus a little, many days
+                "age": draw(st.sampled_from([3700, 40000, 86400 + 1800, 86400 + 100, 3 * 86400 + 50, 100000, 10**7])),
+            }
+        )
     if not any(t["kind"] == "stale" for t in trials):
         trials[0]["kind"] = "stale"
     nw = draw(st.integers(2, 3))
@@ -119,7 +130,8 @@ def execute(case: dict[str, Any], preempt: dict[int, int], tmpdir: str, ctx: Ctx
                 stale_ids.append(tid)
         getattr(s0, "_backend", s0).scoped_session.remove()
         con = sqlite3.connect(env.path + ".db")
-        con.execute(f"UPDATE trial_heartbeats SET heartbeat = datetime('now', '-100000 seconds') WHERE trial_id IN ({','.join(map(str, stale_ids)) or '-1'})")
+        for tid_ in stale_ids:
+            con.execute(f"UPDATE trial_heartbeats SET heartbeat = datetime('now', '-{int(info[tid_].get('age', 100000))} seconds') WHERE trial_id = {tid_}")
         con.commit()
         con.close()
         before = {t._trial_id: t for t in env.fresh_view().get_all_trials(sid)}
